@@ -5,7 +5,7 @@ import os, json, subprocess
 from .. import common as C
 
 SETS = {
-    "quick": [("verifying",), ("decrypting",), ("signing", "encrypting")],
+    "quick": [("verifying",), ("decrypting",), ("signing", "encrypting"), ("pke",), ("pbkw",), ("pie-wrap",)],
     "thorough": [("verifying",), ("decrypting",), ("signing",), ("encrypting",), ("id",), ("pie-wrap",), ("pbkw",), ("pke",), ("signing", "encrypting")],
 }
 CRATES = {"paseto-v1": "v1", "paseto-v2": "v2", "paseto-v3": "v3", "paseto-v4": "v4"}
